@@ -63,8 +63,8 @@ def run(ctx):
         for _ in range(150 if ctx.quick else 4000):
             oc = []
             for _i in range(5):
-                k = rnd5.choice(["ok", "fail", "fail", "hang", "rerr"])
-                oc.append({"kind": k, "d": rnd5.choice([0, 1, 3, 5]) if k in ("ok", "fail") else 0})
+                k = rnd5.choice(["ok", "fail", "fail", "hang", "rerr", "stub"])
+                oc.append({"kind": k, "d": rnd5.choice([0, 1, 3, 5]) if k in ("ok", "fail") else (int(TIMEOUT) + 1 if k == "stub" else 0)})
             sc5.append({"n": 5, "oc": oc, "K": rnd5.randint(1, 4), "cancelAt": rnd5.choice([-1, -1, 0, 2])})
         f_in5, f_out5 = ctx.path("scen-5.ndjson"), ctx.path("traces-5.ndjson")
         vlib.write_ndjson(f_in5, sc5)
